@@ -30,6 +30,10 @@ pub fn configs(tier: Tier) -> Vec<SolveCfg> {
             SolveCfg { population: PopKind::Default, hyper: HyperKind::Dynamic, generations: 3, seed: 0, ..base.clone() },
             SolveCfg { population: PopKind::Greedy, hyper: HyperKind::Static, generations: 1, seed: 1, plan: Some(PlanPolicy::Reverse), ..base.clone() },
             SolveCfg { population: PopKind::RosomaxaSmall, hyper: HyperKind::Dynamic, generations: 8, seed: 2, init_size: 4, plan: Some(PlanPolicy::SingletonsLeft), ..base.clone() },
+            // longer runs: the search operators get their turn
+            SolveCfg { population: PopKind::Elitism, hyper: HyperKind::Static, generations: 12, seed: 3, plan: Some(PlanPolicy::Sequential), ..base.clone() },
+            SolveCfg { population: PopKind::Default, hyper: HyperKind::Dynamic, generations: 30, seed: 4, init_size: 4, ..base.clone() },
+            SolveCfg { population: PopKind::RosomaxaSmall, hyper: HyperKind::Static, generations: 20, seed: 5, plan: Some(PlanPolicy::Reverse), ..base.clone() },
         ]
     } else {
         let mut out = vec![];
